@@ -173,14 +173,14 @@ func (m *verifC40FS) Lstat(name string) (*fs.ExtendedFileInfo, error) {
 	}
 	return verifC40Info(path.Clean("/"+name), e), nil
 }
-func (m *verifC40FS) Join(elem ...string) string    { return path.Join(elem...) }
-func (m *verifC40FS) Separator() string             { return "/" }
-func (m *verifC40FS) Abs(p string) (string, error)  { return path.Clean("/" + p), nil }
-func (m *verifC40FS) Clean(p string) string         { return path.Clean(p) }
-func (m *verifC40FS) VolumeName(string) string      { return "" }
-func (m *verifC40FS) IsAbs(p string) bool           { return strings.HasPrefix(p, "/") }
-func (m *verifC40FS) Dir(p string) string           { return path.Dir(p) }
-func (m *verifC40FS) Base(p string) string          { return path.Base(p) }
+func (m *verifC40FS) Join(elem ...string) string   { return path.Join(elem...) }
+func (m *verifC40FS) Separator() string            { return "/" }
+func (m *verifC40FS) Abs(p string) (string, error) { return path.Clean("/" + p), nil }
+func (m *verifC40FS) Clean(p string) string        { return path.Clean(p) }
+func (m *verifC40FS) VolumeName(string) string     { return "" }
+func (m *verifC40FS) IsAbs(p string) bool          { return strings.HasPrefix(p, "/") }
+func (m *verifC40FS) Dir(p string) string          { return path.Dir(p) }
+func (m *verifC40FS) Base(p string) string         { return path.Base(p) }
 
 type verifC40File struct {
 	name string
@@ -411,6 +411,25 @@ func verifC40Files(e *verifC40Entry, p string, out map[string]*verifC40Entry) {
 // verifC40Premise reports whether every file whose content differs between the
 // parent snapshot's state and the new state also differs in metadata that the
 // flags do not ignore.
+// Settings as the user states them (doc/040_backup.rst): --ignore-ctime ignores the ctime only,
+// --ignore-inode ignores inode and ctime.  The premise is evaluated on these, the archiver gets the
+// flag value that cmd/restic computes for them (the raw inode-only value for completeness).
+const (
+	verifC40IgnCtime uint = 1
+	verifC40IgnInode uint = 2
+)
+
+func verifC40RealFlags(setting uint) uint {
+	var f uint
+	if setting&verifC40IgnCtime != 0 {
+		f |= ChangeIgnoreCtime
+	}
+	if setting&verifC40IgnInode != 0 {
+		f |= ChangeIgnoreInode
+	}
+	return f
+}
+
 func verifC40Premise(parent, cur *verifC40FS, flags uint) (bool, string) {
 	pf, cf := map[string]*verifC40Entry{}, map[string]*verifC40Entry{}
 	verifC40Files(parent.root, "/", pf)
@@ -421,8 +440,8 @@ func verifC40Premise(parent, cur *verifC40FS, flags uint) (bool, string) {
 			continue
 		}
 		detectable := len(o.Content) != len(c.Content) || o.MTime != c.MTime ||
-			(flags&ChangeIgnoreCtime == 0 && o.CTime != c.CTime) ||
-			(flags&ChangeIgnoreInode == 0 && o.Inode != c.Inode)
+			(flags&verifC40IgnCtime == 0 && o.CTime != c.CTime) ||
+			(flags&verifC40IgnInode == 0 && o.Inode != c.Inode)
 		if !detectable {
 			return false, p
 		}
@@ -455,7 +474,7 @@ func (r verifC40Repo) ChunkerFactory() restic.ChunkerFactory {
 
 func verifC40Snapshot(repo *repository.Repository, m *verifC40FS, parent *data.Snapshot, flags uint, skip bool) verifC40Backup {
 	arch := New(verifC40Repo{repo}, m, Options{ReadConcurrency: 1, SaveTreeConcurrency: 2})
-	arch.ChangeIgnoreFlags = flags
+	arch.ChangeIgnoreFlags = verifC40RealFlags(flags)
 	var res verifC40Backup
 	var mu sync.Mutex
 	arch.Error = func(item string, err error) error {
@@ -603,8 +622,14 @@ func TestVerif_C40(t *testing.T) {
 		"the chunker polynomial is the fixed test polynomial for all repositories (repository.TestRepositoryWithBackend), i.e. 'same polynomial' holds by construction")
 
 	edits := verifC40Edits()
-	flagSets := []uint{0, ChangeIgnoreCtime, ChangeIgnoreInode, ChangeIgnoreCtime | ChangeIgnoreInode}
-	flagName := map[uint]string{0: "none", ChangeIgnoreCtime: "ignore-ctime", ChangeIgnoreInode: "ignore-inode", ChangeIgnoreCtime | ChangeIgnoreInode: "ignore-ctime+inode"}
+	flagSets := []uint{0, verifC40IgnCtime, verifC40IgnInode, verifC40IgnCtime | verifC40IgnInode}
+	flagName := map[uint]string{0: "none", verifC40IgnCtime: "ignore-ctime", verifC40IgnInode: "ignore-inode", verifC40IgnCtime | verifC40IgnInode: "ignore-ctime+inode"}
+	if uint(ChangeIgnoreCtime)&uint(ChangeIgnoreInode) != 0 {
+		// the raw inode-only value is not reachable from the command line (--ignore-inode sets both);
+		// if the two constants are not independent bits it has no meaning of its own
+		flagSets = []uint{0, verifC40IgnCtime, verifC40IgnCtime | verifC40IgnInode}
+		r.Note("ChangeIgnoreCtime and ChangeIgnoreInode overlap: the raw inode-only setting is not run")
+	}
 
 	// parent-less reference backups, cached by canonical state
 	fullCache := map[string]restic.ID{}
@@ -779,7 +804,7 @@ func TestVerif_C40(t *testing.T) {
 				runHistory(ck, []int{i}, flags, skip, true)
 				for j := range edits {
 					if !r.Thorough() {
-						if skip || flags == ChangeIgnoreCtime|ChangeIgnoreInode || (flags != 0 && !contentEdit(j)) {
+						if skip || flags == verifC40IgnCtime|verifC40IgnInode || (flags != 0 && !contentEdit(j)) {
 							continue
 						}
 					}
